@@ -6,6 +6,8 @@ import "pqsim/core"
 func All() []core.Prop {
 	return []core.Prop{
 		C01{},
+		C13{},
+		C14{},
 	}
 }
 
